@@ -475,6 +475,45 @@ def large_instances(h, w, level):
     return _LARGE[key]
 
 
+def fat_instances(h, w, level):
+    """Rooms with *interior* cells (a cell whose four neighbours lie in the same room: a plus, a 3x3 block): the only
+    rooms in which a T-tetromino can sit on such a cell.  A fat seed at every interior position, the rest of the board
+    cut by nearest-seed growth from corner / side seeds, and by one-after-the-other growth."""
+    key = ("fat", h, w, level)
+    if key in _LARGE:
+        return _LARGE[key]
+    out = []
+
+    def add(rooms):
+        if rooms in out or any(len(r) < 4 for r in rooms):
+            return
+        try:
+            sols = search(h, w, rooms, INST_CAP, NODE_CAP)
+        except TooMany:
+            return
+        _SOLS[repr([[list(c) for c in r] for r in rooms])] = sols
+        out.append(rooms)
+
+    corners = [[(0, 0)], [(0, w - 1)], [(h - 1, 0)], [(h - 1, w - 1)]]
+    sides = [[(0, w // 2)], [(h - 1, w // 2)]]
+    centres = [(y, x) for y in range(1, h - 1) for x in range(1, w - 1)]
+    if level == 0:
+        centres = centres[:: max(1, len(centres) // 4)]
+    for (cy, cx) in centres:
+        plus = [(cy, cx), (cy - 1, cx), (cy + 1, cx), (cy, cx - 1), (cy, cx + 1)]
+        block = [(cy + dy, cx + dx) for dy in (-1, 0, 1) for dx in (-1, 0, 1)]
+        for fat in (plus, block):
+            for others in (corners, sides, corners[:2], [corners[0], corners[3]]):
+                seeds = [fat] + [o for o in others if o[0] not in fat]
+                add(voronoi(h, w, seeds))
+                add(grown(h, w, seeds[::-1]))
+                if level > 0:
+                    add(grown(h, w, seeds))
+                    add(voronoi(h, w, seeds[::-1]))
+    _LARGE[key] = [{"height": h, "width": w, "blocks": [[list(c) for c in r] for r in rooms]} for rooms in out]
+    return _LARGE[key]
+
+
 class Lits(base.Rule):
     name = "lits"
 
@@ -485,11 +524,16 @@ class Lits(base.Rule):
         big = [(6, 6), (4, 6), (6, 4), (1, 12), (12, 1), (2, 10), (10, 2)]
         if tier != "quick":
             big = [(4, 4), (5, 5)] + big + [(10, 10), (4, 5), (5, 4), (5, 6), (6, 5), (7, 7), (8, 8), (3, 8), (8, 3), (1, 16), (16, 1), (2, 12), (12, 2), (5, 8), (8, 5)]
-        return s + [("large", h, w, 0 if tier == "quick" else 1) for h, w in big]
+        fat = [(4, 5), (5, 4), (5, 5)] if tier == "quick" else [(4, 4), (4, 5), (5, 4), (5, 5), (5, 6), (6, 5), (6, 6), (4, 7), (7, 4)]
+        return s + [("large", h, w, 0 if tier == "quick" else 1) for h, w in big] + [("fat", h, w, 0 if tier == "quick" else 1) for h, w in fat]
 
     def instances(self, shape, cap):
         if shape[0] == "large":
             for p in large_instances(shape[1], shape[2], shape[3]):
+                yield p
+            return
+        if shape[0] == "fat":
+            for p in fat_instances(shape[1], shape[2], shape[3]):
                 yield p
             return
         h, w = shape
